@@ -143,6 +143,29 @@ theorem parseBlockQuote_good (cfg : MdCfg) (hf : CfgFacts cfg) (pm : ParseMethod
     cases hfa
 
 
+/-- `spoiler.parse_block_spoiler` (the function the plugin binds to `block_quote`): same extraction, same child parse -/
+theorem parseBlockSpoiler_good (cfg : MdCfg) (hf : CfgFacts cfg) (pm : ParseMethod) (hpm : PMProgress pm)
+    (name : String) (mt : RxMatch) (st : BlockState) (hpre : Pre name mt st) :
+    Good (Post st) (parseBlockSpoiler cfg pm mt st) := by
+  have hq := extractBlockQuote_good cfg hf pm hpm name mt st hpre
+  obtain ⟨hinv, h2, h3, h4, _⟩ := hpre
+  unfold parseBlockSpoiler
+  extract_lets tokIndex
+  refine Good.bind hq ?_
+  rintro ⟨text, endPos, st1⟩ ⟨q1, q2, q3, q4⟩
+  dsimp only at q1 q2 q3 q4
+  dsimp only
+  show Good _ (parse cfg pm (st1.childState _) _ >>= _)
+  refine Good.bind (parse_good cfg hf pm hpm _ (inv_childState _ _) _) (fun child _ => ?_)
+  rw [h2] at q3 q4
+  split
+  · exact Good.pure ⟨q1, q2, q3, by show st.cursor ≤ st1.cursor; omega, fun hfa => by simp_all⟩
+  · refine Good.pure ⟨q1, q2, PosOk.some (by show st.cursor < st1.cursor; omega),
+      by show st.cursor ≤ st1.cursor; omega, fun hfa => ?_⟩
+    have : truthyPos (some st1.cursor) = true := truthy_some_pos (by omega)
+    exact absurd (this.symm.trans hfa) (by decide)
+
+
 /-! ### lists: token bookkeeping -/
 
 theorem lookup_map_ne (kv : List (String × Json)) (k k' : String) (v : Json) (h : k' ≠ k) :
@@ -568,6 +591,9 @@ theorem parseMethod_progress (cfg : MdCfg) (hf : CfgFacts cfg) : ∀ fuel, PMPro
       | exact parseThematicBreak_good _ mt st hpre
       | exact parseRefLink_good cfg hf _ mt st hpre
       | exact parseBlockQuote_good cfg hf _ ih _ mt st hpre
+      | (split                                                                  -- `block_quote` with / without `spoiler`
+         · exact parseBlockSpoiler_good cfg hf _ ih _ mt st hpre
+         · exact parseBlockQuote_good cfg hf _ ih _ mt st hpre)
       | exact parseList_good cfg hf _ ih _ mt st hpre
       | exact parseRawHtml_good cfg hf _ mt st hpre (hpre.2.2.2.2 (Or.inl rfl))   -- block_html
       | exact parseRawHtml_good cfg hf _ mt st hpre (hpre.2.2.2.2 (Or.inr rfl))   -- raw_html
@@ -575,6 +601,9 @@ theorem parseMethod_progress (cfg : MdCfg) (hf : CfgFacts cfg) : ∀ fuel, PMPro
       | exact Good.guard (fun _ => parseNptable_good cfg _ mt st hpre)
       | exact Good.guard (fun _ => parseRefFootnote_good cfg _ mt st hpre)
       | exact Good.guard (fun hreg => parseDefList_good cfg hf _ ih hreg _ mt st hpre)
+      -- (the guard is given explicitly: a wrong alternative then fails at once instead of comparing two handlers)
+      | exact Good.guard (c := registered cfg "block_math") (fun _ => parseBlockMath_good cfg _ mt st hpre)
+      | exact Good.guard (c := registered cfg "paragraph") (fun _ => parseParagraph_good _ mt st hpre)
       | exact Good.guard (fun _ => parseRefAbbr_good cfg _ mt st hpre)
 
 /-- `BlockParser.parse` on any state built by `process`, with any rule list and any nesting budget, never
